@@ -185,6 +185,22 @@ RunListReady(log, now, c) ==
   IN IF g.err # "" THEN Rejected(log, now)
      ELSE Res(0, log, now, [Reply0 EXCEPT !.kind = "list", !.ids = SetToSeq(ReadySet(g, c.epic))])
 
+\* the other reads, with --json: which ids they list / what they show
+ListedBy(g, c) ==
+  CASE c.name = "list"      -> {t \in TasksOf(g) : ~Closed(g.items[t].state)}
+    [] c.name = "list_all"  -> TasksOf(g)
+    [] c.name = "list_epics" -> EpicsOf(g)
+    [] c.name = "list_epic" -> {t \in TasksOf(g) : g.items[t].epic = c.epic /\ ~Closed(g.items[t].state)}
+    [] OTHER -> {}
+RunRead(log, now, c) ==
+  LET g == Replay(log)
+  IN IF g.err # "" THEN Rejected(log, now)
+     ELSE IF c.name = "show"
+       THEN IF c.id \notin Live(g) THEN Rejected(log, now)
+            ELSE Res(0, log, now, [Reply0 EXCEPT !.kind = "show", !.id = c.id, !.state = g.items[c.id].state,
+                                                  !.claim = g.items[c.id].claim, !.epic = g.items[c.id].epic])
+       ELSE Res(0, log, now, [Reply0 EXCEPT !.kind = "list", !.ids = SetToSeq(ListedBy(g, c))])
+
 \* deterministic commands
 Run(log, now, c) ==
   CASE c.name = "new_task"    -> RunNewTask(log, now, c)
@@ -197,6 +213,7 @@ Run(log, now, c) ==
     [] c.name = "compact"     -> RunCompact(log, now, c)
     [] c.name = "plan"        -> RunPlan(log, now, c)
     [] c.name = "list_ready"  -> RunListReady(log, now, c)
+    [] c.name \in {"list", "list_all", "list_epics", "list_epic", "show"} -> RunRead(log, now, c)
     [] OTHER                  -> Res(0, log, now, Reply0)      \* other reads
 
 \* every outcome the spec allows for c (claim may have to break a tie)
